@@ -773,7 +773,7 @@ def _parse_scsv_bool(x):
 
 def _parse_scsv_cell(func, data, missingstr=None, fillval=None):
     if data.strip() == missingstr:
-        if fillval == "NaN":
+        if fillval == "NaN" and func in (float, complex):
             return func(np.nan)
         return func(fillval)
     elif func.__qualname__ == "bool":
